@@ -345,7 +345,7 @@ def gen_section(rng, macros):
     for d in order:
         name = s.ff[d]
         if macros and rng.random() < 0.5:
-            name = '$F' + name
+            name = '$' + macros + name
         s.subs.append((d, [name]))
     blocks = {}
     for d in ('from', 'to'):
@@ -452,7 +452,11 @@ def render(rng, secs, macros):
     out = []
     if macros:
         out.append(fmt_header(rng, 'macros'))
-        out += ['Faa aa', 'Fcg  cg ; force field']
+        # a macro name ends at one of ' ${}\n\t"' only (`F-aa`, `F.cg`, `9aa`); its prefix is often a macro too
+        defs = [macros + 'aa aa', macros + 'cg  cg ; force field']
+        if macros[:-1] and rng.random() < 0.6:
+            defs.insert(rng.randrange(3), macros[:-1] + ' zz')
+        out += defs
     for s in secs:
         out.append(fmt_header(rng, s.kind))
         for name, ls in s.subs:
@@ -877,7 +881,7 @@ def run_generated(chk, ask, ffs):
     lib = library(ffs)
     cases = []
     for i in range(n):
-        macros = rng.random() < 0.3
+        macros = rng.choice(['F', 'F-', 'F.', 'F:', 'F/', 'F+', 'F@', '9', 'F=', 'F,', 'F|', 'F-2.']) if rng.random() < 0.3 else ''
         secs = [gen_section(rng, macros) for _ in range(rng.randint(1, 4))]
         k = rng.random()
         mode, fault = 'valid', None
